@@ -5,7 +5,7 @@
    Regime N3 (DESIGN 2.4): real-number semantics; floating-point rounding is not verified. *)
 From Coq Require Import ZArith.
 From mathcomp Require Import all_ssreflect all_algebra.
-From DV Require Import Model.C14_exec Proofs.C14_RankOne Proofs.C14_Elitist Proofs.C14_Active Proofs.C14_MO Proofs.C14_Refine Proofs.C14_PlainSPD Proofs.C14_MOHistory.
+From DV Require Import Model.C14_exec Proofs.C14_RankOne Proofs.C14_Elitist Proofs.C14_Active Proofs.C14_MO Proofs.C14_Refine Proofs.C14_PlainSPD Proofs.C14_MOHistory Proofs.C14_ActiveHistory.
 Import Order.TTheory GRing.Theory Num.Theory.
 Set Implicit Arguments. Unset Strict Implicit. Unset Printing Implicit Defensive.
 Local Open Scope ring_scope.
@@ -412,6 +412,25 @@ Theorem C14_mo_history_keeps_mu_and_inverse :
   minv n d P (mo_run (ROps exp_ round_) P evalf (mo_init (ROps exp_ round_) n P population sigma) draws).
 Proof. move=> R e r n d P evalf c1 c2 m0 l0 es pop sg draws; exact: mo_history_from_init. Qed.
 Print Assumptions C14_mo_history_keeps_mu_and_inverse.
+
+(* active (1+lambda), whole histories from __init__: A, invA, pc stay well-formed and invA is the
+   inverse of A after every update, covariance updates and constraint updates included.
+   Hypotheses adraws_ok (for every round): the recorded y and z vectors have the dimension, the
+   vector used by the covariance branch taken is non-zero, and every recorded numpy.linalg.inv
+   value satisfies the contract of inv (well-formed, inv(A') A' = I) *)
+Theorem C14_active_history_keeps_inverse :
+  forall (R : rcfType) (exp_ round_ : R -> R) (n : nat) (P : aparams (T:=R)),
+  0 < ap_ccovp P < 1 -> ap_ccovp P * (1 + ap_cc P * (2%:R - ap_cc P)) < 1 -> 0 <= ap_ccovn P ->
+  forall (evalfit : seq R -> fitness (T:=R)) parent pfit sigma draws log st log',
+  active_run (ROps exp_ round_) n P evalfit (active_init (ROps exp_ round_) n P parent pfit sigma) draws log
+    = Some (st, log') ->
+  adraws_ok exp_ round_ n P evalfit (active_init (ROps exp_ round_) n P parent pfit sigma) draws ->
+  ainv n st.
+Proof.
+move=> R e r n P c1 c2 c3 evalfit parent pfit sigma draws log st log' H ok.
+exact: (active_history_ainv c1 c2 c3 H (active_init_ainv e r n P parent pfit sigma) ok).
+Qed.
+Print Assumptions C14_active_history_keeps_inverse.
 
 (* ========================================================================================= *)
 (* non-vacuity: the hypotheses are satisfiable                                                   *)
